@@ -174,11 +174,6 @@ func knownDefectH(h hsCase) string {
 	return ""
 }
 
-func validH(h hsCase) bool {
-	return h.Typ == "bitfield" && h.Body == "present" && h.Pid == "ok" && h.Ih == "ok" && h.Name == "ok" &&
-		(h.Bits == "exact_none" || h.Bits == "exact_some" || h.Bits == "exact_all") && (h.Rb == "none" || h.Rb == "ok")
-}
-
 var leechHaves = [][]int{{0}, {0, 1}, {0, 2}, {0, 3}, {0, 1, 2}, {0, 1, 3}, {0, 2, 3}}
 
 func have0(kind string, rng *rand.Rand) []int {
